@@ -128,11 +128,17 @@ func (u *Unit) call(st *State, x *ast.CallExpr) *Val {
 	if fn != nil {
 		name := fullName(fn)
 		if m, ok := models[name]; ok {
+			if u.functional && !deterministicModel(name) {
+				u.nonFunctional(st, "calls "+name)
+			}
 			return m(u, st, x, recv, fn)
 		}
 		key := funcKey(fn)
 		if ct := u.eng.lookupContract(key, fn); ct != nil {
 			args := u.evalArgs(st, x, fn.Type().(*types.Signature))
+			if ct.Flags["functional"] == "" {
+				u.nonFunctional(st, "calls "+name+" (not functional)")
+			}
 			return u.applyContract(st, ct, fn.Type().(*types.Signature), recv, args, x, calleeShortName(x))
 		}
 		if u.isPure(fn) {
@@ -140,15 +146,18 @@ func (u *Unit) call(st *State, x *ast.CallExpr) *Val {
 			if v := u.pureFunctional(st, fn, recv, pargs, resT); v != nil {
 				return v
 			}
+			u.nonFunctional(st, "calls "+name+" (result not a function of its arguments)")
 			return u.pureResult(st, fn, resT, x)
 		}
 		args := u.evalArgs(st, x, fn.Type().(*types.Signature))
 		_ = args
+		u.nonFunctional(st, "calls "+name)
 		u.note("call without contract havocs the heap: " + name)
 		u.havocAllHeap(st, "call "+name)
 		return u.callResult(st, resT, calleeShortName(x))
 	}
 	// function value
+	u.nonFunctional(st, "calls a function value")
 	var fv *Val
 	if fvar != nil {
 		fv = u.eval(st, x.Fun)
@@ -287,6 +296,16 @@ func (u *Unit) isPure(fn *types.Func) bool {
 	for _, p := range purePrefixes {
 		if strings.HasPrefix(n, p) {
 			u.trusted["pure: "+p+"*"] = true
+			return true
+		}
+	}
+	return false
+}
+
+// deterministicModel: library models whose result is determined by the argument values.
+func deterministicModel(name string) bool {
+	for _, p := range []string{"strings.", "strconv.", "unicode.", "unicode/utf8.", "path.", "fmt.Sprintf", "math."} {
+		if strings.HasPrefix(name, p) {
 			return true
 		}
 	}
@@ -823,6 +842,18 @@ func (u *Unit) applyContract(st *State, ct *Contract, sig *types.Signature, recv
 			st.gvars[rc.Text] = &nv
 		} else {
 			u.eng.specError("%s: records unknown ghost var %s", env.what, rc.Text)
+		}
+	}
+	if ct.Flags["functional"] != "" && sig != nil {
+		// a callee verified `functional`: its results are the uninterpreted function pure!<FullName>!i of the arguments
+		var sorts, terms []string
+		for _, a := range args {
+			sorts = append(sorts, sortOf(a.T))
+			terms = append(terms, u.scalar(st, a))
+		}
+		for i, r := range rets {
+			f := u.d.fun(fmt.Sprintf("pure!%s!%d", full, i), sorts, sortOf(r.T))
+			st.assumeFact(tEq(u.scalar(st, r), app(f, terms...)))
 		}
 	}
 	st.trace = append(st.trace, fmt.Sprintf("%s call %s (contract)", u.pos(x), short))
